@@ -223,6 +223,54 @@ def statics_monitor(chk, quick):
                 break
         if not info["first_use"]["confirmed"]:
             chk.note("first-use statics with order-dependent values (%s): no event of the pool depends on them" % syms[:200])
+    # ---- alone versus in company: the event stream of every configuration (fixed tapes, steered branches included) in a process that
+    #      does nothing else, and in processes that first walked the items of ALL configurations in a shuffled order.  Anything the library
+    #      keeps for the life of a process and fills at the first use (a cache keyed too coarsely, a "first caller wins" constant) is then
+    #      filled by another configuration; in-process comparisons cannot see it once both sides run after the first use.
+    ncfg = len(lines)
+    per = max(1, (ncfg + NCPU * 2 - 1) // (NCPU * 2))
+
+    def alone(first):
+        return (first,) + run([exe, "cfghash", f.name, str(chk.seed), str(n_iid), str(first), str(per), "0"], timeout=7200, env=build.lib_env("plain"))
+
+    # 'alone' means alone: one process per configuration for the configurations of the first block, blocks of neighbours otherwise would
+    # already be company - so every configuration gets its own process
+    def alone1(ci):
+        return (ci,) + run([exe, "cfghash", f.name, str(chk.seed), str(n_iid), str(ci), "1", "0"], timeout=7200, env=build.lib_env("plain"))
+
+    def company(ws):
+        return (ws,) + run([exe, "cfghash", f.name, str(chk.seed), str(n_iid), "0", str(ncfg), str(ws)], timeout=7200, env=build.lib_env("plain"))
+
+    alone_h = {}
+    for ci, rc, out, err in pmap(alone1, list(range(ncfg)), jobs=NCPU):
+        recs = [json.loads(l) for l in out.splitlines() if l.startswith("{")]
+        if rc != 0 or not recs or not recs[0]["configs"]:
+            chk.inconclusive_("c07_statics cfghash (alone, configuration %d) exited %s: %s" % (ci, rc, err[-300:]))
+            continue
+        alone_h[ci] = recs[0]["configs"][0]
+    compared = 0
+    differing = {}
+    warm_seeds = [11, 12] if quick else [11, 12, 13, 14, 15, 16]
+    for ws, rc, out, err in pmap(company, warm_seeds, jobs=NCPU):
+        recs = [json.loads(l) for l in out.splitlines() if l.startswith("{")]
+        if rc != 0 or not recs:
+            chk.inconclusive_("c07_statics cfghash (in company, order %d) exited %s: %s" % (ws, rc, err[-300:]))
+            continue
+        for c in recs[0]["configs"]:
+            a = alone_h.get(c["cfg"])
+            if a is None:
+                continue
+            compared += 1
+            if a["hash"] != c["hash"] or a["error"] != c["error"]:
+                differing.setdefault(c["config"], []).append(ws)
+    for cfgname, wss in sorted(differing.items()):
+        chk.violation("alone-vs-company|" + cfgname,
+                      "%s: the event stream (fixed tapes) in a process that first ran the other configurations of the pool (orders %s) differs from the stream of the same "
+                      "configuration alone in a process of its own: the library keeps something for the life of the process that another configuration filled" % (cfgname, wss),
+                      {"config": cfgname, "orders": wss, "replay": "%s cfghash <spec> %d %d <cfg index> 1 0   versus   ... 0 %d %d" % (exe, chk.seed, n_iid, ncfg, wss[0])})
+    info["alone_vs_company"] = {"configurations": ncfg, "alone_processes": len(alone_h), "company_processes": len(warm_seeds), "streams_compared": compared,
+                                "configurations_differing": len(differing)}
+    chk.require(compared >= ncfg, "alone-versus-company compared only %d streams" % compared)
     os.unlink(f.name)
     return info
 
